@@ -103,6 +103,9 @@ impl<C: Config> Engine<C> {
             .read_owned()
             .await;
 
+        #[cfg(feature = "verif_hooks")]
+        crate::engine::verif::preempt_point("tracked::after_phase_lock").await;
+
         let timestamp = Timestamp(
             self.computation_graph
                 .database
@@ -124,6 +127,10 @@ impl<C: Config> Engine<C> {
             .write_manager
             .new_write_batch();
 
+        #[cfg(feature = "verif_hooks")]
+        crate::engine::verif::preempt_point("input_session::after_new_batch")
+            .await;
+
         let prev = self
             .computation_graph
             .database
@@ -132,11 +139,18 @@ impl<C: Config> Engine<C> {
             .fetch_add(1, Ordering::SeqCst);
         let new_timestamp = prev + 1;
 
+        #[cfg(feature = "verif_hooks")]
+        crate::engine::verif::preempt_point("input_session::after_bump").await;
+
         self.computation_graph
             .database
             .sync
             .timestamp_map
             .insert((), Timestamp(new_timestamp), &mut write_buffer)
+            .await;
+
+        #[cfg(feature = "verif_hooks")]
+        crate::engine::verif::yield_point("input_session::before_phase_lock")
             .await;
 
         let guard = self
